@@ -184,6 +184,8 @@ func GetInstantiatedStructType [C15]
   ensures result != nil ==> (exists k int :: 0 <= k && k < len(s.Instantiations) && s.Instantiations[k] == result)
   // the request fails only for a wrong number of type arguments
   ensures result == nil ==> len(genericTypes) != len(s.GenericTypes)
+  ensures len(genericTypes) != len(s.GenericTypes) && (forall k int :: 0 <= k && k < old(len(s.Instantiations)) ==>
+              !slices.eqAllBy(old(s.Instantiations[k]).instantiatedWith, genericTypes, Equal)) ==> result == nil
   loop 0 invariant forall k int :: 0 <= k && k <= rangeindex0 && k < len(s.Instantiations) ==>
                      !slices.eqAllBy(s.Instantiations[k].instantiatedWith, genericTypes, Equal)
   loop 0 invariant s.Instantiations == old(s.Instantiations)
